@@ -35,12 +35,35 @@ pub fn with_case<R>(sub: &str, mk: &dyn Fn() -> Value, f: impl FnOnce() -> R) ->
             CURRENT.with(|c| c.set(self.0));
         }
     }
+    ensure_altstack();
     // erase the lifetime: the pointer is only dereferenced while `f` runs
     let p: *const (dyn Fn() -> Value + '_) = mk;
     let p: *const (dyn Fn() -> Value + 'static) = unsafe { std::mem::transmute(p) };
     let prev = CURRENT.with(|c| c.replace(Some((sub as *const str, p))));
     let _g = Clear(prev);
     f()
+}
+
+thread_local! {
+    static ALTSTACK: std::cell::Cell<bool> = std::cell::Cell::new(false);
+}
+
+/// every thread that runs cases gets a 1 MiB alternate signal stack, so that the fatal-signal handler can still write the
+/// breadcrumb out when the failure is a stack overflow (unbounded recursion inside the library)
+fn ensure_altstack() {
+    ALTSTACK.with(|a| {
+        if !a.get() {
+            a.set(true);
+            unsafe {
+                let size: usize = 1 << 20;
+                let mem = libc::mmap(std::ptr::null_mut(), size, libc::PROT_READ | libc::PROT_WRITE, libc::MAP_PRIVATE | libc::MAP_ANONYMOUS, -1, 0);
+                if mem != libc::MAP_FAILED {
+                    let ss = libc::stack_t { ss_sp: mem, ss_flags: 0, ss_size: size };
+                    libc::sigaltstack(&ss, std::ptr::null_mut());
+                }
+            }
+        }
+    });
 }
 
 fn die_with_breadcrumb(msg: &str) -> ! {
@@ -83,7 +106,8 @@ extern "C" fn on_signal(sig: libc::c_int) {
     // not async-signal-safe; the process is lost anyway and this is best effort
     // a non-unwinding panic runs the hook (which stored its message) and then aborts
     let last = LAST.with(|l| l.try_borrow().ok().and_then(|b| b.clone())).unwrap_or_default();
-    die_with_breadcrumb(&format!("fatal signal {} {}", sig, last));
+    let what = if sig == libc::SIGSEGV || sig == libc::SIGBUS { " (invalid memory access or stack overflow, e.g. unbounded recursion)" } else { "" };
+    die_with_breadcrumb(&format!("fatal signal {}{} {}", sig, what, last));
 }
 
 pub fn install_hook() {
@@ -108,7 +132,11 @@ pub fn install_hook() {
         }));
         unsafe {
             for sig in [libc::SIGSEGV, libc::SIGBUS, libc::SIGILL, libc::SIGFPE, libc::SIGABRT] {
-                libc::signal(sig, on_signal as *const () as usize);
+                let mut sa: libc::sigaction = std::mem::zeroed();
+                sa.sa_sigaction = on_signal as *const () as usize;
+                sa.sa_flags = libc::SA_ONSTACK;
+                libc::sigemptyset(&mut sa.sa_mask);
+                libc::sigaction(sig, &sa, std::ptr::null_mut());
             }
         }
     });
